@@ -251,6 +251,8 @@ Record sconfig := mkSConfig {
   ant_cfg : config;
   lead_in : Q;          (* lead_in_time *)
   fe_scale : Q;         (* gain of the front end *)
+  fe_shift : option Q;  (* the front end stamps its output with times + D (cable delay / delay line given as a time);
+                           None = the output keeps the time grid it was given *)
   fe_taps : list Q      (* FIR stage of the front end acting on the SAMPLE SEQUENCE (a front end with
                            memory: [0;..;0;1] is a delay line, [a;b] a 2-tap filter); [] = no FIR stage *)
 }.
@@ -274,10 +276,12 @@ Fixpoint fir_at (taps : list Q) (xs : list Q) (i : nat) : Q :=
 Definition fir (taps : list Q) (xs : list Q) : list Q :=
   map (fir_at taps xs) (seq 0 (length xs)).
 
-(* front_end(signal): gain, then (if any) the FIR stage on the samples; the time grid is kept *)
+(* front_end(signal): gain, then (if any) the FIR stage on the samples; the output is stamped with the input
+   times, shifted by the delay D if there is one:  Signal(signal.times + D, values) *)
 Definition front_end (sc : sconfig) (s : signal) : signal :=
   let scaled := map (fun v => v * fe_scale sc) (s_values s) in
-  mkSig (s_times s) (match fe_taps sc with [] => scaled | taps => fir taps scaled end).
+  mkSig (match fe_shift sc with None => s_times s | Some D => map (fun t => t + D) (s_times s) end)
+        (match fe_taps sc with [] => scaled | taps => fir taps scaled end).
 
 (* AntennaSystem._calculate_lead_in_times *)
 Definition lead_in_n (sc : sconfig) (times : list Q) : Z :=
